@@ -12,6 +12,17 @@ CLAIMED = {
          "Trusted: TLC, CommunityModules Json/IOUtils, Go's unicode tables (source of Unicode.tla), the harness printer (AST -> text). Bounded: depth/size of ASTs and input length.",
          "6/C01"),
 }
+API_NOTE = "Trusted: TLC, CommunityModules Json/IOUtils, Go's unicode tables and utf8 decoding (cross-checked per input against API.tla's decoder), the harness printer. Outside the exact fragment (nullable loops, \\G, balancing groups) the reference search table is the one recorded from FindRunesMatchStartingAt; bounded: AST size, inputs <= 14 runes."
+API_TECH = "trace/observation validation: one record of every entry point's result per (pattern, input) is accepted by TLC iff it is what the TLA+ module API.tla (folds over one search function; RegexSem.Find inside the fragment) derives"
+CLAIMED.update({
+ "C15": ("model_checking", CLAIMED["C01"][1] + " (RightToLeft: direction flag per continuation frame, descending scan)",
+         "As C01, for the RightToLeft option alone and combined with i/m/s: the specification's direction-aware semantics (characters consumed leftwards, concatenations last-to-first, look-ahead still rightwards, normalised spans, descending scan) is the oracle for every start offset; the TLC-enumerated grammar leg is exhaustive within its bounds.",
+         CLAIMED["C01"][3], "6/C15"),
+ "C02": ("model_checking", API_TECH, "Every public entry point's result for one compiled pattern and one input is logged in one record and TLC accepts it only if all of them are the images of one search function under API.tla (bool <=> find, string = rune results modulo byte/rune conversion, StartingAt at every offset, FindNextMatch chains, find-all, ReplaceFunc enumeration); inside the fragment that function is the specification's.", API_NOTE, "6/C02"),
+ "C07": ("model_checking", API_TECH + "; iteration laws (strictly advancing, disjoint, no repeated empty match, <= len+1 matches, = chain of independent searches) and the find-all rule are TLA+ predicates over the recorded chain", "The laws of C07 are state predicates of API.tla evaluated by TLC on every recorded FindNextMatch chain (both directions, n in {-1,0,1,2,3}), with the chain of independent searches recomputed from the specification (fragment) or from the recorded StartingAt searches.", API_NOTE, "6/C07"),
+ "C08": ("model_checking", API_TECH + "; well-formedness and ByteRange = byte offsets computed by API.tla's own UTF-8 decoder from the raw input bytes", "Every match object returned by every entry point is checked by TLC against the C08 invariants, with byte spans recomputed by the specification from the raw bytes (each invalid byte one rune).", API_NOTE, "6/C08"),
+ "C09": ("model_checking", API_TECH + "; Replace/ReplaceFunc/Split = API.tla folds (ReplaceWith, Expand, ParseRepl, SplitWith) of the match sequence", "Replace, ReplaceFunc and Split outputs are recomputed by TLC as folds of the match sequence with the replacement mini-language parsed and expanded by the specification, for both directions, start offsets and counts.", API_NOTE, "6/C09"),
+})
 NOT_YET = "check not built yet in this round (planned, see DESIGN.md section 6)"
 
 hooks_commits = []
@@ -34,6 +45,9 @@ m = {
  "engines": [
   {"name": "RegexSem", "path": "spec/RegexSem.tla", "serves_properties": ["C01", "C15"], "kind_free_text": "TLA+ reference semantics of the backtracking matcher and scan loop, evaluated by TLC"},
   {"name": "Options", "path": "spec/Options.tla", "serves_properties": ["C01", "C18"], "kind_free_text": "TLA+ specification of option elaboration and basic group numbering"},
+  {"name": "API", "path": "spec/API.tla", "serves_properties": ["C02", "C07", "C08", "C09"], "kind_free_text": "TLA+ specification of the entry points as folds over one search function, UTF-8 decoding, iteration laws, replacement mini-language"},
+  {"name": "Obs_API", "path": "spec/Obs_API.tla", "serves_properties": ["C02", "C07", "C08", "C09"], "kind_free_text": "observation validation spec over records of all entry points"},
+  {"name": "Gen_Find", "path": "spec/Gen_Find.tla", "serves_properties": ["C01", "C15"], "kind_free_text": "TLC-enumerated bounded pattern grammar with predicted results (forward conformance)"},
   {"name": "Obs_Find", "path": "spec/Obs_Find.tla", "serves_properties": ["C01", "C15"], "kind_free_text": "trace/observation validation spec: recorded find results must be behaviours of RegexSem"},
  ],
  "checks": [],
